@@ -129,7 +129,7 @@ def _nb_files(rng):
     return {"a.ipynb": base, "b.ipynb": local, "c.ipynb": remote, "sub/d.ipynb": other}
 
 
-GOOD = ["a.ipynb", "b.ipynb", "c.ipynb", "sub/d.ipynb"]
+GOOD = ["a.ipynb", "b.ipynb", "c.ipynb", "sub/d.ipynb"]   # (v3.ipynb exists too, but converting it draws random cell ids)
 BADFILES = ["notes.txt", "empty.ipynb", "broken.ipynb", "nothere.ipynb", "adir.ipynb", "v99.ipynb"]
 URL_OK = "http://peer.invalid/nb/ok.ipynb"
 URLS_BAD = ["http://peer.invalid/404.ipynb", "http://peer.invalid/500.ipynb", "http://peer.invalid/refused.ipynb",
@@ -170,7 +170,11 @@ def generate(rng, index, cfg):
         "wd_flag": rng.random() < 0.5,
         # git hands the merge tool an empty $BASE for add/add conflicts
         "tool_base": "empty.ipynb" if (mode == "mergetool" and rng.random() < 0.35) else "a.ipynb",
+        # the server process is started from another directory than the one it serves (-w DIR)
+        "cwd_elsewhere": rng.random() < 0.3,
     }
+    if world["cwd_elsewhere"]:
+        world["wd_flag"] = True
     swarm = {"clients": rng.choice([1, 1, 2, 3, 4]), "net_faults": rng.random() < 0.4, "frag_style": rng.choice(["whole", "mixed", "tiny", "medium"]),
              "p_malformed": rng.choice([0.15, 0.35, 0.6]), "backpressure": rng.choice([None, None, 64, 1000]),
              "disk_faults": rng.random() < 0.25}
@@ -325,6 +329,9 @@ def generate(rng, index, cfg):
                 ex["path"] = "/static/../../../nbmergeapp.py"
             else:
                 ex["raw"] = "\x16\x03\x01 this is not http\r\n\r\n"
+        if ex.get("path", "").startswith("/api/") and "?" not in ex["path"] and rng.random() < 0.2:
+            ex["path"] += "?" + rng.choice(["cwd=..%2Foutside", "cwd=sub", "workdirectory=%2Ftmp", "base=c.ipynb&remote=c.ipynb",
+                                            "outputfilename=evil.ipynb", "closable=true", "persist=false", "base_url=%2Fother"])
         # schedule
         ex["start"] = rng.choice([0.0, 0.0, 0.01, 0.5, 3.0])
         ex["frag_style"] = swarm["frag_style"] if rng.random() < 0.8 else rng.choice(["whole", "tiny"])
@@ -446,6 +453,11 @@ class Runner:
         open(os.path.join(w.work, "empty.ipynb"), "w").close()
         with open(os.path.join(w.work, "broken.ipynb"), "w") as f:
             f.write('{"cells": [')
+        with open(os.path.join(w.work, "v3.ipynb"), "w") as f:
+            json.dump({"nbformat": 3, "nbformat_minor": 0, "metadata": {"name": "old"}, "worksheets": [{"cells": [
+                {"cell_type": "code", "language": "python", "metadata": {}, "collapsed": False, "input": "x = 1\nprint(x)", "outputs": [
+                    {"output_type": "stream", "stream": "stdout", "text": "1\n"}], "prompt_number": 1},
+                {"cell_type": "markdown", "metadata": {}, "source": "old *format*"}], "metadata": {}}]}, f)
         with open(os.path.join(w.work, "v99.ipynb"), "w") as f:
             f.write('{"nbformat": 99, "nbformat_minor": 0, "metadata": {}, "cells": []}')
         self.output_name = OUTPUT_NAME.get(tw["mode"])
@@ -463,6 +475,14 @@ class Runner:
         import nbdime.config as nbconfig
         nbconfig.config_instance(nbconfig.Web).workdirectory = os.path.abspath(os.curdir)
         self.snap_dirs = [("work", w.work), ("outside", self.outside), ("home", w.home)]
+        self.elsewhere = os.path.join(w.root, "elsewhere")
+        os.makedirs(self.elsewhere)
+        # decoys: same names, other content - a read or write relative to the process cwd shows up as a wrong answer
+        # or as a change in this directory
+        for name, src in (("a.ipynb", "c.ipynb"), ("b.ipynb", "sub/d.ipynb")):
+            with open(os.path.join(self.elsewhere, name), "w") as f:
+                json.dump(tw["files"][src], f)
+        self.snap_dirs.append(("elsewhere", self.elsewhere))
         self.closable = tw["mode"] != "server" and not tw["persist"]
         self.prefix = "" if tw["base_url"] == "/" else tw["base_url"].rstrip("/")
 
@@ -983,6 +1003,9 @@ class Runner:
         self.close_delivered = []
         prog, main, argv = self.entry()
         sys.argv[0] = prog
+        if self.trace["world"].get("cwd_elsewhere"):
+            os.chdir(self.elsewhere)
+            self.stat("sessions_cwd_elsewhere")
         self.loop.call_soon(lambda: self.loop.create_task(self.director(), name="director"))
         sink = io.StringIO()
         rc = None
